@@ -4,7 +4,7 @@ CFG = dict(
         level="proof",
         lean_modules=["ElysModel.Props.C12"],
         props_files=["ElysModel/Props/C12.lean"],
-        runs=[hist_run(), hist_run(nq=200, sq=4, st=8, focus="cm."), govpool_run(focus="amm."), dict(mode="c12lock", n_quick=3000, n_thorough=100000, shards_quick=4, shards_thorough=8)],
+        runs=[hist_run(), hist_run(nq=200, sq=4, st=8, focus="cm."), govpool_run(focus="amm."), dict(mode="c12lock", n_quick=3000, n_thorough=100000, shards_quick=4, shards_thorough=8), gentrip_run(focus="cm.")],
         rule=HIST_RULE,
         trusted_base=COMMON_TB + ["macro-ops of each block are recognised from x/bank's own transfer/coinbase/burn events and the submitted messages; "
                                   "claimed-bucket bookkeeping of Eden/EdenB and EdenB burns are witnessed (W) from the observation"],
